@@ -48,7 +48,10 @@ Definition tuple_meta (t : Z * Z * Z * Z) : meta :=
 
 (* One offer of `len` bytes (unfragmented) through a real publication on a log handed over at
    term count n0 / tail offset off0 with an unlimited publication limit:
-   observation = (offer result, position() afterwards, active term count, raw tails 0..2). *)
+   observation = (offer result, position() afterwards, active term count, raw tails 0..2).
+   In the very last term (n0 = 2^31 - 1) an offer that does not fit is refused with
+   MaxPositionExceeded: no rotation, the position stops at the end of the position space TL * 2^31
+   (the tail counter may have overshot the term: position() clamps it to the term length). *)
 Definition holds_pub (init n0 bits off0 len : Z)
   (obs : outcome Z * outcome Z * Z * Z * Z * Z) : bool :=
   let '(offer, pos, cnt, t0, t1, t2) := obs in
@@ -58,7 +61,23 @@ Definition holds_pub (init n0 bits off0 len : Z)
   if off0 + required <=? tl then
     ok_eq offer (n0 * tl + off0 + required) && ok_eq pos (n0 * tl + off0 + required) && (cnt =? n0)
     && (get_tail s' (n0 mod 3) =? wrap32 (init + n0) * two32 + off0 + required)
+  else if n0 =? two31 - 1 then
+    match offer with Err MaxPositionExceeded => true | _ => false end
+    && ok_eq pos (two31 * tl) && (cnt =? n0)
+    && (term_id_of (get_tail s' (n0 mod 3)) =? wrap32 (init + n0))
   else
     match offer with Err AdminAction => true | _ => false end
     && ok_eq pos ((n0 + 1) * tl) && (cnt =? n0 + 1)
     && (get_tail s' ((n0 + 1) mod 3) =? wrap32 (init + n0 + 1) * two32).
+
+(* Publication::position() / ExclusivePublication::position() on a log handed over at term count n0 with the
+   active tail counter at off0, where off0 may lie beyond the term length (an append that tripped the end of the
+   term has added to the tail and nobody has rotated yet): the stream position is n0 * TL + min(off0, TL) - never
+   past the end of the term, never beyond the end of the position space. *)
+Inductive skipped := Skipped.   (* printed where the harness does not run the exclusive flavour *)
+Definition holds_ppos (init n0 bits off0 : Z) (pos : outcome Z) : bool :=
+  ok_eq pos (n0 * 2 ^ bits + Z.min off0 (2 ^ bits)).
+(* what the code computes: term id and clamped offset taken from the raw tail, then compute_position *)
+Definition model_ppos (m : mode) (init n0 bits off0 : Z) : outcome Z :=
+  let raw := raw_tail_of_term (wrap32 (init + n0)) + off0 in
+  compute_position m (term_id_of raw) (term_offset_of raw (2 ^ bits)) bits init.
